@@ -103,7 +103,8 @@ def run_harnesses(crate, names, jobs=16, harness_timeout='10m', overall_timeout=
             rc = p.returncode
         except subprocess.TimeoutExpired:
             rc = -9
-            subprocess.run(['pkill', 'cbmc'])
+            # kill only the CBMC processes of THIS run (their command line mentions this scratch directory)
+            subprocess.run(['pkill', '-f', os.path.realpath(os.path.join(crate, '..'))])
     wall = time.time() - t0
     text = open(log, errors='replace').read()
     results = {}
@@ -255,7 +256,10 @@ def run_property(prop, cfg, tier, repo, scratch, seed):
         k = seed % max(1, len(names))
         names = names[k:] + names[:k]
     jobs = int(os.environ.get('VERIF_KANI_JOBS', '10'))
-    out = run_harnesses(crate, names, jobs=jobs, harness_timeout=cfg.get('kani_timeout', '20m' if tier == 'thorough' else '12m'))
+    # the required (quick) harnesses are started first; a thorough run has an overall budget after which the
+    # harnesses not yet finished are reported as not decided (optional ones only degrade coverage)
+    budget = int(os.environ.get('VERIF_KANI_BUDGET_S', '5400' if tier == 'thorough' else '2700'))
+    out = run_harnesses(crate, names, jobs=jobs, harness_timeout=cfg.get('kani_timeout', '20m' if tier == 'thorough' else '12m'), overall_timeout=budget)
     cov['cmds'].append(out['cmd'])
     if out['compile_error']:
         undecided.append('kani: harness crate does not compile on this tree: %s' % out['compile_error'][:400].replace('\n', ' '))
